@@ -9,11 +9,8 @@ pub mod ffi {
     #[diplomat::opaque]
     pub struct Instant(pub temporal_rs::Instant);
 
-    /// For portability, we use two i64s instead of an i128.
-    /// The sign is extracted first before
-    /// appending the high/low segments to each other.
-    ///
-    /// This could potentially instead be a bit-by-bit split, or something else
+    /// For portability, we use two 64 bit halves instead of an i128: `high` holds the upper
+    /// 64 bits of the two's complement value (and with them the sign), `low` the lower 64 bits.
     pub struct I128Nanoseconds {
         pub high: i64,
         pub low: u64,
@@ -21,12 +18,8 @@ pub mod ffi {
 
     impl Instant {
         pub fn try_new(ns: I128Nanoseconds) -> Result<Box<Self>, TemporalError> {
-            let is_neg = ns.high < 0;
-            let ns_high_abs = ns.high.unsigned_abs() as u128;
             // Stick them together
-            let total = (ns_high_abs << (64 + ns.low as u128)) as i128;
-            // Reintroduce the sign
-            let instant = if is_neg { -total } else { total };
+            let instant = (i128::from(ns.high) << 64) | i128::from(ns.low);
             temporal_rs::Instant::try_new(instant)
                 .map(|c| Box::new(Self(c)))
                 .map_err(Into::into)
@@ -103,12 +96,8 @@ pub mod ffi {
 
         pub fn epoch_nanoseconds(&self) -> I128Nanoseconds {
             let ns = self.0.epoch_nanoseconds().as_i128();
-            let is_neg = ns < 0;
-            let ns = ns.unsigned_abs();
-
             let high = (ns >> 64) as i64;
-            let low = (ns & u64::MAX as u128) as u64;
-            let high = if is_neg { -high } else { high };
+            let low = ns as u64;
 
             I128Nanoseconds { high, low }
         }
